@@ -479,6 +479,97 @@ def assert_eq_rule(toks, log):
     return out
 
 
+def split_or_patterns(toks, log):
+    """R7: a match arm `P1 | P2 | .. => BODY` becomes one arm per alternative, each with a copy of BODY
+    (the definition of or-patterns).  Applied to every match of the item (outermost first, then recursively
+    inside the copied bodies)."""
+    out = []
+    i = 0
+    n = len(toks)
+    while i < n:
+        t = toks[i]
+        if t.kind == 'ident' and t.text == 'match' and t.file != 'unit':
+            # find the match block
+            j = i + 1
+            while j < n and toks[j].text != '{':
+                if toks[j].kind == 'punct' and toks[j].text in OPEN:
+                    j = match_close(toks, j)
+                j += 1
+            if j >= n:
+                out.append(t)
+                i += 1
+                continue
+            close = match_close(toks, j)
+            out.extend(toks[i:j + 1])
+            k = j + 1
+            while k < close:
+                # pattern: until `=>` at depth 0
+                ps = k
+                while k < close and toks[k].text != '=>':
+                    if toks[k].kind == 'punct' and toks[k].text in OPEN:
+                        k = match_close(toks, k)
+                    k += 1
+                if k >= close:
+                    out.extend(toks[ps:close])
+                    break
+                pat = toks[ps:k]
+                arrow = toks[k]
+                # body
+                b = k + 1
+                if toks[b].text == '{':
+                    be = match_close(toks, b) + 1
+                    if be < close and toks[be].text == ',':
+                        be += 1
+                    body = toks[b:be]
+                else:
+                    be = b
+                    while be < close and toks[be].text != ',':
+                        if toks[be].kind == 'punct' and toks[be].text in OPEN:
+                            be = match_close(toks, be)
+                        be += 1
+                    if be < close:
+                        be += 1
+                    body = toks[b:be]
+                    if body and body[-1].text != ',':
+                        body = body + [Tok('punct', ',', '', body[-1].file, body[-1].line)]
+                # guard?
+                gpos = None
+                d = 0
+                for x, tk in enumerate(pat):
+                    if tk.kind == 'punct' and tk.text in OPEN:
+                        d += 1
+                    elif tk.kind == 'punct' and tk.text in CLOSE:
+                        d -= 1
+                    elif d == 0 and tk.kind == 'ident' and tk.text == 'if':
+                        gpos = x
+                        break
+                guard = pat[gpos:] if gpos is not None else []
+                purepat = pat[:gpos] if gpos is not None else pat
+                alts = split_top(purepat, '|')
+                body = split_or_patterns(body, log)
+                if len(alts) > 1:
+                    log.append(('R7', arrow.file, arrow.line, 'or-pattern with %d alternatives split into one arm each' % len(alts)))
+                    for ai, alt in enumerate(alts):
+                        alt = [x.copy() for x in alt]
+                        if ai > 0 and alt:
+                            alt[0].ws = '\n' + (purepat[0].ws.split('\n')[-1] if purepat else '')
+                        out.extend(alt)
+                        out.extend(x.copy() for x in guard)
+                        out.append(arrow.copy())
+                        out.extend(x.copy() for x in body)
+                else:
+                    out.extend(pat)
+                    out.append(arrow)
+                    out.extend(body)
+                k = be
+            out.append(toks[close])
+            i = close + 1
+            continue
+        out.append(t)
+        i += 1
+    return out
+
+
 def split_top(toks, sep):
     parts = [[]]
     i = 0
